@@ -30,10 +30,11 @@ ANCHORS = ["dagrt.language:ExecutionController.update_plan", "dagrt.language:Exe
            "dagrt.exec_numpy:NumpyInterpreter.run_single_step"]
 MIN_NONTRIVIAL = {"quick": 10000, "thorough": 1050000}
 REQUIRED_COUNTERS = {"quick": ["steps_controller", "steps_interpreter", "visits_checked", "dynamic_requests",
-                               "hook_state_checks", "live_guard_contract_evaluations", "live_guard_effects_checked"],
+                               "hook_state_checks", "live_guard_contract_evaluations", "live_guard_effects_checked",
+                               "multi_phase_steps_judged"],
                      "thorough": ["steps_controller", "steps_interpreter", "visits_checked", "dynamic_requests",
                                   "hook_state_checks", "live_guard_contract_evaluations",
-                                  "live_guard_effects_checked"]}
+                                  "live_guard_effects_checked", "multi_phase_steps_judged"]}
 SHARD_TIMEOUT = {"quick": 900, "thorough": 3000}
 
 
@@ -427,6 +428,188 @@ def check_e2e(case, rec, hang_s=30.0):
 # }}}
 
 
+# {{{ several phases over the same statement ids, one interpreter (ids are only unique per phase)
+
+def gen_e2e_phases(rng):
+    g0 = rand_graph(rng, rng.randint(2, 8))
+    pool = g0["ids"]
+    nph = rng.randint(2, 3)
+    flags = [f"g{j}" for j in range(rng.randint(1, 2))]
+    phases = []
+    for p in range(nph):
+        if p == 0:
+            ids, deps = list(pool), {x: list(g0["deps"][x]) for x in pool}
+        else:
+            # same ids (all, or all but one), another dependency graph; often the same sinks as phase 0
+            ids = list(pool)
+            if len(ids) > 2 and rng.random() < 0.3:
+                ids.remove(rng.choice(ids))
+            keep_sinks = rng.random() < 0.6
+            s0 = [x for x in sinks(g0) if x in ids]
+            inner = [x for x in ids if x not in s0] if keep_sinks else list(ids)
+            rng.shuffle(inner)
+            order = inner + (s0 if keep_sinks else [])
+            deps = {}
+            for i, x in enumerate(order):
+                earlier = order[:i] if not (keep_sinks and x in s0) else inner
+                deps[x] = sorted(rng.sample(earlier, min(len(earlier), rng.choice([0, 1, 1, 2]))))
+        guard_of = {x: rng.choice(flags) for x in ids if rng.random() < 0.45}
+        enders = {}
+        if rng.random() < 0.4:
+            x = rng.choice(ids)
+            enders[x] = rng.choice(["fail", "switch"])
+            guard_of.setdefault(x, rng.choice(flags))
+        phases.append({"ids": ids, "deps": deps, "guard_of": guard_of, "enders": enders,
+                       "switch_to": rng.randrange(nph), "next": rng.choice([(p + 1) % nph, (p + 1) % nph, p])})
+    nsteps = rng.randint(3, 7)
+    sched = [[rng.random() < 0.55 for _ in flags] for _ in range(nsteps + 8)]
+    return {"phases": phases, "flags": flags, "nsteps": nsteps, "sched": sched, "graph": g0}
+
+
+def check_e2e_phases(case, rec, hang_s=30.0):
+    from dagrt.exec_numpy import NumpyInterpreter
+    from dagrt.language import AssignFunctionCall, DAGCode, ExecutionPhase, FailStep, SwitchPhase
+    from pymbolic import var
+    pool = case["graph"]["ids"]
+    phs = {}
+    for p, ph in enumerate(case["phases"]):
+        stmts = []
+        for j, fl in enumerate(case["flags"]):
+            stmts.append(AssignFunctionCall(("<cond>" + fl,), "<func>flag", (j,), id="set_" + fl))
+        for x in ph["ids"]:
+            deps = set(ph["deps"][x])
+            cond = True
+            if x in ph["guard_of"]:
+                cond = var("<cond>" + ph["guard_of"][x])
+                deps.add("set_" + ph["guard_of"][x])
+            code = 100 * p + pool.index(x)
+            kw = dict(id=x, depends_on=frozenset(deps), condition=cond)
+            if x in ph["enders"]:
+                stmts.append(AssignFunctionCall(("w_" + x,), "<func>rec", (code,), id="pre_" + x,
+                                                depends_on=frozenset(deps), condition=cond))
+                kw["depends_on"] = frozenset(deps | {"pre_" + x})
+                stmts.append(FailStep(**kw) if ph["enders"][x] == "fail"
+                             else SwitchPhase(f"ph{ph['switch_to']}", **kw))
+            else:
+                stmts.append(AssignFunctionCall(("w_" + x,), "<func>rec", (code,), **kw))
+        phs[f"ph{p}"] = ExecutionPhase(f"ph{p}", f"ph{ph['next']}", frozenset(stmts))
+    dag = DAGCode(phs, "ph0")
+    step = [0]
+    calls = [[]]
+
+    def f_flag(j):
+        return bool(case["sched"][min(step[0], len(case["sched"]) - 1)][j])
+
+    def f_rec(code):
+        calls[-1].append((int(code) // 100, pool[int(code) % 100]))
+        return 1.0
+
+    interp = NumpyInterpreter(dag, {"<func>flag": f_flag, "<func>rec": f_rec})
+    interp.set_up(0.0, 1.0, {})
+    outcomes = []
+    try:
+        with case_alarm(hang_s):
+            for ev in islice(interp.run(max_steps=case["nsteps"]), 80):
+                nm = type(ev).__name__
+                if nm in ("StepCompleted", "StepFailed"):
+                    outcomes.append((nm, getattr(ev, "current_phase", None), getattr(ev, "next_phase", None)))
+                    step[0] += 1
+                    calls.append([])
+                    if len(outcomes) >= case["nsteps"] + 6:
+                        break
+    except CaseTimeout:
+        rec.violation("interpreter-hang", "run() did not produce events", case)
+        return
+    except Exception as ex:
+        rec.violation(f"phases-interpreter-exception-{type(ex).__name__}", f"{type(ex).__name__}: {ex}", case)
+        return
+    expect_phase = 0
+    for k, (outcome, cur, nxt) in enumerate(outcomes):
+        rec.count("steps_interpreter")
+        rec.count("steps_interpreter_multi_phase")
+        got_pairs = calls[k]
+        fl = case["sched"][min(k, len(case["sched"]) - 1)]
+        on = {f: fl[j] for j, f in enumerate(case["flags"])}
+        seen_ph = {p for p, _ in got_pairs}
+        if len(seen_ph) > 1:
+            rec.violation("phases-step-mixes-statements-of-two-phases", f"step {k}: {got_pairs}", case)
+            return
+        if cur is not None:
+            p = int(cur[2:])
+        elif seen_ph:
+            p = seen_ph.pop()
+        else:
+            p = expect_phase
+        if p is None:
+            # (a failed step names no phase; nothing ran that would tell which one this was)
+            rec.count("multi_phase_steps_of_unknown_phase")
+            continue
+        if expect_phase is not None and p != expect_phase:
+            rec.violation("phases-wrong-phase-ran", f"step {k}: phase {p} ran, phase {expect_phase} was due", case)
+            return
+        if seen_ph - {p}:
+            rec.violation("phases-statement-of-another-phase-ran",
+                          f"step {k} (phase {p}) ran {got_pairs}", case)
+            return
+        ph = case["phases"][p]
+        got = [x for _, x in got_pairs]
+
+        def guard(x):
+            return on[ph["guard_of"][x]] if x in ph["guard_of"] else True
+        rec.count("visits_checked", len(got))
+        if len(set(got)) != len(got):
+            rec.violation("phases-statement-executed-twice", f"step {k} phase {p}: {got}", case)
+            return
+        for x in got:
+            if x not in ph["ids"]:
+                rec.violation("phases-statement-not-in-phase-executed", f"step {k} phase {p}: {x}", case)
+                return
+            if not guard(x):
+                rec.violation("phases-guard-false-statement-executed",
+                              f"step {k} phase {p}: {x} ran, flags {on}", case)
+                return
+        pos = {x: i for i, x in enumerate(got)}
+        for x in got:
+            for d in ph["deps"][x]:
+                if guard(d) and d not in pos:
+                    rec.violation("phases-executed-without-dependency",
+                                  f"step {k} phase {p}: {x} ran, dependency {d} did not: {got}", case)
+                    return
+                if d in pos and pos[d] > pos[x]:
+                    rec.violation("phases-executed-before-dependency",
+                                  f"step {k} phase {p}: {x} before {d}: {got}", case)
+                    return
+        active = [x for x in ph["enders"] if guard(x)]
+        if not active:
+            if outcome != "StepCompleted":
+                rec.violation("phases-unexpected-step-outcome",
+                              f"step {k} phase {p}: {outcome} without an active fail/switch", case)
+                return
+            want_all = {x for x in ph["ids"] if guard(x)}
+            if set(got) != want_all:
+                rec.violation("phases-statement-skipped-in-complete-step",
+                              f"step {k} phase {p}: expected {sorted(want_all)}, got {got}", case)
+                return
+            if nxt is not None and nxt != f"ph{ph['next']}":
+                rec.violation("phases-wrong-successor", f"step {k} phase {p}: next {nxt}", case)
+                return
+            expect_phase = ph["next"]
+        else:
+            kind = ph["enders"][active[0]]
+            if outcome != ("StepFailed" if kind == "fail" else "StepCompleted"):
+                rec.violation("phases-unexpected-step-outcome",
+                              f"step {k} phase {p}: {outcome}, active ender {active} ({kind})", case)
+                return
+            if active[0] not in got:
+                rec.violation("phases-step-ended-without-ender", f"step {k} phase {p}: {got}", case)
+                return
+            # (which phase follows a failed step is not this property's business)
+            expect_phase = ph["switch_to"] if kind == "switch" else None
+        rec.count("multi_phase_steps_judged")
+
+# }}}
+
+
 # {{{ guards that read what guarded statements write (guard value at the moment of the visit)
 
 GUARD_SHAPES = [["cmp", "<", ["var", "n"], ["num", 1]], ["cmp", "<", ["var", "n"], ["num", 2]],
@@ -590,8 +773,12 @@ def run_shard(shard, rec):
     else:
         rng = random.Random(shard["seed"])
         for i in range(shard["count"]):
-            case = gen_e2e(rng) if i % 3 else gen_e2e_live(rng)
-            (check_e2e_live if case.get("live") else check_e2e)(case, rec)
+            if i % 4 == 1:
+                case = gen_e2e_phases(rng)
+                check_e2e_phases(case, rec)
+            else:
+                case = gen_e2e(rng) if i % 3 else gen_e2e_live(rng)
+                (check_e2e_live if case.get("live") else check_e2e)(case, rec)
             ne = sum(len(v) for v in case["graph"]["deps"].values())
             rec.case(case, nontrivial=ne >= 1)
 
@@ -599,6 +786,8 @@ def run_shard(shard, rec):
 def replay(witness, rec):
     if witness.get("live"):
         check_e2e_live(witness, rec)
+    elif "phases" in witness:
+        check_e2e_phases(witness, rec)
     elif "sched" in witness:
         check_e2e(witness, rec)
     else:
